@@ -700,6 +700,19 @@ class WorldA:
         Xs = self.probes_for(c)
         X = Xs[0]
         y = c.cc() if X is None else c.cc(torch.from_numpy(X))
+        if kind == "nll_z":
+            # -log c(x) + log Z with Z read from a compiled integrate(c), if there is one
+            z = next((d for d in self.alive("derived")
+                      if (d.spec or {}).get("opr") == "integrate" and (d.spec or {}).get("scope") is None
+                      and d.srcs == (c.name,) and not (d.spec or {}).get("pre")), None)
+            base = self._loss(c, {**op, "loss": "nll"})
+            if z is None or base is None:
+                return base
+            zz = z.cc()
+            zz = zz.real if zz.is_complex() else zz
+            lz = torch.log(zz) if self.semiring == "sum-product" else zz
+            lz = lz[torch.isfinite(lz)]
+            return base + (lz.mean() if lz.numel() else 0.0)
         if kind == "nll":
             # negative log-likelihood of the probe batch (log-space or linear outputs)
             if self.semiring == "sum-product":
@@ -723,6 +736,20 @@ class WorldA:
         via = self.get(op.get("via", op["base"]))
         if via is None or b.name not in via.bases:
             via = b
+        if op.get("joint"):
+            # the usual way of training a model together with what was derived from it:
+            # list(c.parameters()) + list(z.parameters()) - whatever requires gradients
+            ps, seen = [], set()
+            for x in [b] + [d for d in self.alive("derived") if b.name in d.bases]:
+                for p_ in x.cc.parameters():
+                    if p_.requires_grad and id(p_) not in seen:
+                        seen.add(id(p_))
+                        ps.append(p_)
+            if {id(p_) for g_ in b.opt.param_groups for p_ in g_["params"]} != seen and ps:
+                spec = b.opt_spec or {"kind": "sgd", "lr": 0.05}
+                b.opt = (torch.optim.Adam(ps, lr=spec["lr"]) if spec["kind"] == "adam"
+                         else torch.optim.SGD(ps, lr=spec["lr"], momentum=spec.get("momentum", 0.0)))
+                self.tr.count("optim:joint-parameter-list")
         snap = self._snapshot_tensors(b)
         # optimiser state must be restorable too when a step diverges
         try:
